@@ -15,6 +15,7 @@ for f, wave in (('.scratch/results_round1.jsonl', ''), ('.scratch/results_w2_fir
             if c: first['%s-%s%s' % (r['pid'], wave, x)] = {0: 'missed', 1: 'caught', 3: 'inconclusive'}.get(c['rc'], str(c['rc']))
 FIX = json.load(open(os.path.join(HERE, 'tools', 'seeded_notes.json')))
 first.update(FIX.get('_first', {}))
+W = {w: [sum(1 for k, v in first.items() if ('-' + w) in k and v.startswith('caught')), sum(1 for k in first if ('-' + w) in k)] for w in ('w3', 'w4')}
 rows = []
 for mp in sorted(glob.glob(os.path.join(HERE, 'seeded', '*', 'meta.json'))):
     m = json.load(open(mp))
@@ -48,7 +49,16 @@ keyed by too little, mutable defaults, hoisted templates) -> sibling workloads, 
 C10 oracle; reuse of one object after an error or after another option -> after-error / after-refusal histories in C02, C03, C04,
 C14, C18; argument and result aliasing -> C07 argument-unchanged, C08 result aliasing; boundary of a gate only reachable by search ->
 C19 gate search; state kept across `load()`/`dim=` on one object -> C07 reload, C16 histories.
-''' % (len(rows), '\n'.join(rows))
+
+Held-out measurements (checks frozen and committed before the changes were written): wave 3 first run %d/%d caught, wave 4 first
+run %d/%d caught.  Wave 4 authors were given the nine earlier descriptions per property and told to avoid them, so its misses are
+narrow by construction; what they taught: a public attribute changed between calls (DES `K`, AES `Nr`, whitebox `KT`), other
+objects used *between* two halves of one operation (enc .. dec, piece .. piece), argument forms the workloads had not used (Bits
+values wider than the ring, iterables as positions, overhanging slices, short salts, a caller-owned bytearray key, round counts
+>= 256) and the class L=0 with a non-empty buffer, which the first workloads excluded although the properties quantify over it
+(that omission also hid a genuine defect, see section 12).  A miss is answered by widening the *workload class* (all ciphers,
+all hashes), not by targeting the seeded site; the final state catches all %d.
+''' % (len(rows), '\n'.join(rows), W['w3'][0], W['w3'][1], W['w4'][0], W['w4'][1], len(rows))
 p = os.path.join(HERE, 'DESIGN.md')
 s = open(p).read()
 if '## 15. Seeded' in s:
